@@ -557,6 +557,9 @@ func (x *Exec) trCall(t *CCall, env *Env) Val {
 	case "s64":
 		v := arg(0)
 		return Val{T: tInt64, S: fmt.Sprintf("(ite (>= %s 9223372036854775808) (- %s 18446744073709551616) %s)", v.S, v.S, v.S)}
+	case "u64":
+		v := arg(0)
+		return Val{T: tInt, S: fmt.Sprintf("(ite (< %s 0) (+ %s 18446744073709551616) %s)", v.S, v.S, v.S)}
 	case "s32":
 		v := arg(0)
 		return Val{T: tInt, S: fmt.Sprintf("(ite (>= %s 2147483648) (- %s 4294967296) %s)", v.S, v.S, v.S)}
